@@ -13,10 +13,12 @@ RULE = ('bounded-exhaustive: base lists of <= 3 lines over a 15-password pool (l
         'rulesets trained from the variants of one base list must be byte-identical (modulo uuid/file name) to the plain one; junk lines (blank, tab, every C0 control, U+0085, U+2028, U+2029 - each in the middle, first, last, doubled at the end of a line and as the whole line -, undecodable bytes, broken $HEX) '
         'inserted at every position must be skipped without changing the yielded sequence or the ruleset; three successive readers must yield the same sequence; non-trivial = variant that differs from the plain LF file')
 ASSUMPTIONS = ['a password of the form $HEX[...] cannot be written plainly in the trainer input language; such base passwords are only written in $HEX form',
+               'in a utf-16 / utf-32 list a password that begins with U+FEFF is only written plainly: the hex digits of its first character are also those of a byte-order mark in front of the rest',
                'rulesets are compared within one encoding (the files are written in the training encoding)']
 NSHARDS = 16
 POOL = ['password', 'Pass word', ' lead', 'trail ', '  two  ', 'пароль', 'café', '$HEX[41', 'x$HEX[41]', '$HEX[zz]', '12 abc', '7', 'a]', '$HEX[4142]', ' $HEX[41]', '$HEX[41]x', '$HEX[4142] ',
-        '   ']      # a password that is nothing but blanks is a password (only the empty line is not)
+        '   ',      # a password that is nothing but blanks is a password (only the empty line is not)
+        '\ufeffpw']      # U+FEFF as the first character of a password: a byte-order mark only at the very start of a utf-16 / utf-32 file, a character everywhere else
 JUNK = [('blank', b''), ('tab', b'ab\tcd'), ('nel', 'ab\u0085cd'), ('ls', 'ab\u2028cd'), ('ps', 'ab\u2029cd'),
         ('undecodable', {'utf-8': b'ab\xff\xfecd', 'cp1251': b'ab\x98cd'}), ('broken_hex', b'$HEX[4g]'), ('odd_hex', b'$HEX[414]'),
         # well-formed hex whose bytes are not text in the file's encoding: cut inside a multi-byte character, a lone continuation byte, an invalid byte
@@ -114,6 +116,11 @@ def variants(seq, enc):
                 ok = True
                 for (pw, cnt), hx in zip(distinct, mask):
                     if not hx and must_hex(pw):
+                        ok = False
+                        break
+                    if hx and enc in PIECE and pw.startswith('\ufeff'):
+                        # in utf-16 / utf-32 the hex digits 'fffe...' are a byte-order mark in front of the password just as well as a password
+                        # that begins with U+FEFF: such a password has no unambiguous $HEX form there and is only written plainly
                         ok = False
                         break
                     body = hexform(pw, enc) if hx else pw
